@@ -71,7 +71,14 @@ impl Authority {
 		let uri: Uri = value.parse().map_err(AuthorityError::InvalidUri)?;
 		let authority = uri.authority().ok_or(AuthorityError::MissingHost)?;
 		let host = authority.host();
-		let maybe_port = &authority.as_str()[host.len()..];
+		// The authority may start with userinfo such as `user:password@foo:33`.
+		let host_and_port = authority.as_str().rsplit_once('@').map_or(authority.as_str(), |(_, h)| h);
+		let maybe_port = host_and_port.get(host.len()..).ok_or(AuthorityError::MissingHost)?;
+
+		// Only a port may follow the host.
+		if !maybe_port.is_empty() && !maybe_port.starts_with(':') {
+			return Err(AuthorityError::InvalidPort(maybe_port.to_string()));
+		}
 
 		// After the host segment, the authority may contain a port such as `fooo:33`, `foo:*` or `foo`
 		let port = match maybe_port.split_once(':') {
